@@ -115,3 +115,5 @@ def run(ctx):
     c01_deep.run(ctx)
     from . import c01_arrays
     c01_arrays.run(ctx)
+    from . import c01_real
+    c01_real.run(ctx)
